@@ -171,6 +171,15 @@ class SparkSQLModel(data_algebra.db_model.DBModel):
             sql_formatters=SparkSQL_formatters,
         )
 
+    def quote_string(self, string: str) -> str:
+        """
+        Quote a string value: backslash is an escape character in Spark SQL string literals.
+        """
+        assert isinstance(string, str)
+        return data_algebra.db_model.DBModel.quote_string(
+            self, string.replace("\\", "\\\\")
+        )
+
     # noinspection PyMethodMayBeStatic
     def execute(self, conn, q):
         """
